@@ -231,7 +231,9 @@ def r2_reference_analysis(ctx) -> None:
     # the final set arithmetic of the dangling-detection validator
     v = prog.func(VC + ".DanglingDetectionValidator.validate")
     src = unparse(v.node)
-    if "for name in detection_names - referenced_ids" in src and ("{name for name in rule.detection.detections.keys()}" in src or "set(rule.detection.detections" in src):
+    diff = [n for n in ast.walk(v.node) if isinstance(n, ast.BinOp) and isinstance(n.op, ast.Sub) and unparse(n) == "detection_names - referenced_ids"]
+    in_result = any(isinstance(a_, ast.comprehension) or (isinstance(a_, ast.Call) and call_name(a_) in ("sorted", "list", "set", "frozenset")) for d_ in diff for a_ in [prog.parent(d_)])
+    if diff and in_result and ("{name for name in rule.detection.detections.keys()}" in src or "set(rule.detection.detections" in src):
         r.ok("C19.R2", v.qual, "unused = all detection names − referenced names", v.loc)
     else:
         r.violation("C19.R2", v.qual, "detection_names - referenced_ids", "unused detections are not computed as (all detection names) minus (referenced names)", v.loc)
